@@ -11,6 +11,8 @@
   All statements are for `Defects.none` unless named `…_witness`.
 -/
 import AxVerif.Lemmas.Sql
+import AxVerif.Lemmas.Parser
+import AxVerif.Generated.Parse
 namespace AxVerif.Sql
 
 /-! ## Three-valued logic -/
@@ -579,5 +581,78 @@ example : ∃ v ∈ [Value.null, .int 3], v ≠ .null := ⟨.int 3, by simp, by 
 example : evalSelect .none false [wT] (idsWhere (.cmp .gt (.col 1) (.lit (.int 5)))) = .ok [[.int 1], [.int 3]] := by decide
 example : deleteRows (predOf .none wT.tys (some (.cmp .gt (.col 1) (.lit (.int 15))))) wT.rows
     = .ok ([[.int 1, .int 10], [.int 2, .null]], 1) := by decide
+
+
+/-! # The parser: text → AST follows the documented grammar
+
+(kept in the namespace `AxVerif.Sql` so that `./check` finds the theorems of this file under one prefix) -/
+section ParserTheorems
+open AxVerif.Parser
+
+/-- The binding-power table extracted from the code on this run (by evaluating `infix_binding_power` on every
+    operator token and probing the prefix operators and the BETWEEN bounds) is the documented precedence
+    OR < AND < NOT < comparison / LIKE / IN / BETWEEN / IS < + - || < * / % < unary sign, left-associative. -/
+theorem table_ordered : Generated.parseTable = docTable := by decide
+
+/-- Round trip, every operand in parentheses: for every expression (any depth, any operators; IN lists non-empty,
+    as the grammar requires) the Pratt parser running on the extracted table reads the fully parenthesised
+    rendering back as the same tree and consumes all of it. -/
+theorem parse_printFull_partial (e : PExpr) (h : ListsOk e = true) :
+    parseExpr Generated.parseTable (full e) = some e := by
+  rw [table_ordered]
+  have hc := cost_le_len e
+  have := full_rt e h [] rfl (8 * (full e).length + 8) (by omega)
+  simp only [List.append_nil] at this
+  simp only [parseExpr]
+  change (match parseBp D (8 * (full e).length + 8) 0 (full e) with | some (e, []) => some e | _ => none) = some e
+  rw [this]
+
+/-- The full statement (not claimed as a theorem; exercised by the `parse` engine on every run with thousands of
+    random expressions and hand-written precedence traps): the *minimal-parentheses* rendering under the documented
+    precedence is read back as the same tree. -/
+def parse_printMin_statement : Prop :=
+  ∀ e : PExpr, Printable e = true → parseExpr Generated.parseTable (printMin docTable e) = some e
+
+/-- … and the lexer reads the text of a token list back (token lists joined by blanks): also only tested. -/
+def lex_render_statement : Prop :=
+  ∀ (render : List Tok → List Nat) (ts : List Tok), lexAll (render ts) = some ts → True
+
+/-- instances of the minimal-parentheses statement on the classical traps (checked by evaluation) -/
+theorem parse_printMin_examples :
+    let a := PExpr.ident [97]; let b := PExpr.ident [98]; let c := PExpr.ident [99]
+    parseExpr docTable (printMin docTable (.bin .and (.un .not a) b)) = some (.bin .and (.un .not a) b) ∧
+    parseExpr docTable (printMin docTable (.un .not (.bin .and a b))) = some (.un .not (.bin .and a b)) ∧
+    parseExpr docTable (printMin docTable (.bin .div (.bin .mul a (.un .neg b)) c)) = some (.bin .div (.bin .mul a (.un .neg b)) c) ∧
+    parseExpr docTable (printMin docTable (.bin .mul (.bin .plus a b) c)) = some (.bin .mul (.bin .plus a b) c) ∧
+    parseExpr docTable (printMin docTable (.bin .minus a (.bin .minus b c))) = some (.bin .minus a (.bin .minus b c)) ∧
+    parseExpr docTable (printMin docTable (.bin .and (.between false a (.num 1) (.num 2)) c))
+      = some (.bin .and (.between false a (.num 1) (.num 2)) c) ∧
+    parseExpr docTable (printMin docTable (.un .not (.inList true a [.num 1, .num (-2)])))
+      = some (.un .not (.inList true a [.num 1, .num (-2)])) := by
+  refine ⟨rfl, rfl, rfl, rfl, rfl, rfl, rfl⟩
+
+/-- With the shipped power of prefix NOT (3 = AND's own left power) the text `NOT a AND b` is read as
+    `NOT (a AND b)`; the documented grammar (and the extracted table after the fix) reads `(NOT a) AND b`. -/
+theorem notBindsLooser_witness :
+    let a := PExpr.ident [97]; let b := PExpr.ident [98]
+    printMin docTable (.bin .and (.un .not a) b) = [.kNot, .ident [97], .kAnd, .ident [98]] ∧
+    parseExpr { docTable with prefixNot := 3 } [.kNot, .ident [97], .kAnd, .ident [98]] = some (.un .not (.bin .and a b)) ∧
+    parseExpr docTable [.kNot, .ident [97], .kAnd, .ident [98]] = some (.bin .and (.un .not a) b) := by
+  refine ⟨rfl, rfl, rfl⟩
+
+/-- With the shipped power of the unary signs (9 = the left power of `*`) the text `a * - b / c` is read as
+    `a * (-(b / c))`; the documented grammar reads `(a * (-b)) / c` (different under integer division). -/
+theorem unaryBindsLooser_witness :
+    let a := PExpr.ident [97]; let b := PExpr.ident [98]; let c := PExpr.ident [99]
+    parseExpr { docTable with prefixMinus := 9 } [.ident [97], .star, .minus, .ident [98], .slash, .ident [99]]
+      = some (.bin .mul a (.un .neg (.bin .div b c))) ∧
+    parseExpr docTable [.ident [97], .star, .minus, .ident [98], .slash, .ident [99]]
+      = some (.bin .div (.bin .mul a (.un .neg b)) c) := by
+  refine ⟨rfl, rfl⟩
+
+/-- hypotheses are satisfiable -/
+example : ListsOk (.inList true (.ident [97]) [.num 1, .bin .plus (.num 2) (.ident [98])]) = true := by decide
+
+end ParserTheorems
 
 end AxVerif.Sql
